@@ -473,6 +473,9 @@ package parsley
 //@   requires GhostFloorPos < ctx.reader.Pos(0)
 //@   ensures  [one-of;C04] (n == nil) != (err == nil)
 //@   ensures  [valid] n != nil ==> NodeOK(n)
+//@   logs parsley.Parser.Parse, parsley.Transform
+//@   ensures  [returns-transformed;C13,C04] n != nil ==> (ncalls() == 1 && !ctx.transformationEnabled && same(n, callres[Node](1, 0))) || (ncalls() == 2 && ctx.transformationEnabled && same(n, callres[Node](2, 0)))
+//@   assert_at call:StaticCheck#1 [checks-returned;C13] (ncalls() == 1 ==> same(lastarg[Node](1), callres[Node](1, 0))) && (ncalls() == 2 ==> same(lastarg[Node](1), callres[Node](2, 0)))
 //@   ensures  [wrapped;C06] callres[Error](1, 2) != nil || callres[Node](1, 0) == nil ==> err != nil && (ErrFormat(err) == "failed to parse the input: %w" || ErrFormat(err) == "failed to parse the input")
 //@   assert_at call:ErrorWithPosition#1 [ws-wins;C10] callres[Error](1, 2) != nil && IsWsErr(callres[Error](1, 2)) ==> same(lastarg[Error](1), callres[Error](1, 2))
 //@   assert_at call:ErrorWithPosition#1 [furthest;C06] callres[Error](1, 2) != nil && !IsWsErr(callres[Error](1, 2)) ==> lastarg[Error](1) != nil && lastarg[Error](1).Pos() >= callres[Error](1, 2).Pos() && (ctx.err != nil ==> lastarg[Error](1).Pos() >= ctx.err.Pos())
@@ -504,6 +507,10 @@ package parsley
 //@   props C04,C13
 //@   requires node != nil && NodeOK(node)
 //@   ensures  err != nil ==> err.Pos() >= 0
+//@   logs parsley.NonLiteralNode.Value
+//@   ensures  [literal;C13] typeis[LiteralNode](node) ==> err == nil && ncalls() == 0
+//@   ensures  [own-value;C13] !typeis[LiteralNode](node) && typeis[NonLiteralNode](node) ==> ncalls() == 1 && callarg[NonLiteralNode](1, 0) == node.(NonLiteralNode) && callarg[interface{}](1, 1) == ctx && v == callres[interface{}](1, 0) && same(err, callres[Error](1, 1))
+//@   ensures  [no-value;C13,C04] !typeis[LiteralNode](node) && !typeis[NonLiteralNode](node) ==> v == nil && err != nil && err.Pos() == node.Pos() && ncalls() == 0
 //@   assigns  fields[Node]("children")
 
 //@ -- Evaluate: a value or an error; it never reaches EvaluateNode without a node
@@ -550,3 +557,26 @@ package parsley
 //@   props C13
 //@   requires f != nil
 //@   include parsley.NodeTransformer.TransformNode
+
+//@ -- ------------------------------------------------------------ renderers: read-only, total
+//@ func (np nilPosition) String() (r string)
+//@   props C11,C14
+//@   ensures  r == "unknown"
+//@   assigns  nothing
+//@ func (w whitespaceError) Error() (r string)
+//@   props C10,C14
+//@   ensures  r == string(w)
+//@   assigns  nothing
+//@ func (n NotFoundError) Error() (r string)
+//@   props C06,C14
+//@   logs fmt.Sprintf
+//@   ensures  [format;C06] ncalls() == 1 && callarg[string](1, 0) == "was expecting %s" && r == callres[string](1, 0)
+//@   assigns  nothing
+//@ -- an error value renders itself without writing anything (assumed of every error type that is not in /repo)
+//@ interface error.Error(e error) (r string)
+//@   requires e != nil
+//@   assigns  nothing
+//@ func (e err) Error() (r string)
+//@   props C06,C14
+//@   requires e.cause != nil
+//@   assigns  nothing
